@@ -82,9 +82,10 @@ def bfs_real(ad, insts, pad_steps=2, max_depth=None):
                 td_t = _index(td, idx)
                 sc = score(ad, env, td_t, [hist[r] for r in term],
                            [ad.scale(group[row_inst[r]]) for r in term])
+                fins = [ad.final(td_t, k, group[row_inst[r]]) for k, r in enumerate(term)]  # before padding mutates td_t
                 # padding: keep stepping the finished rows with mask-admitted actions
                 pad = [{"a": [], "mask": [], "done": []} for _ in term]
-                td_p = td_t
+                td_p = td_t.clone()
                 alive = list(range(len(term)))
                 ph = [list(hist[r]) for r in term]
                 for _ in range(pad_steps):
@@ -118,7 +119,7 @@ def bfs_real(ad, insts, pad_steps=2, max_depth=None):
                     episodes.append({"inst": group[row_inst[r]], "a": hist[r], "mask": masks[r],
                                      "done": dones[r], "reward": sc[k][0], "checker": sc[k][1],
                                      "pad": pad[k], "end": "done", "st": sts[r],
-                                     "fin": ad.final(td_t, k, group[row_inst[r]])})
+                                     "fin": fins[k]})
             for r in dead:
                 episodes.append({"inst": group[row_inst[r]], "a": hist[r], "mask": masks[r],
                                  "done": dones[r], "reward": None, "checker": "none",
